@@ -82,6 +82,10 @@ def run(chk):
     colsw = sorted({{'Param': 'params', 'BatchStat': 'batch_stats', 'Cache': 'cache', 'Custom': 'Custom', 'SubParam': 'SubParam'}[vars_[s[1]]['type']] for s in body['stmts'] if s[0] in ('addto', 'scale')})
     r = rng.random()
     mutable = True if r < 0.3 else (colsw if r < 0.6 and colsw else rng.choice([False, ['batch_stats'], ['cache', 'Custom'], ['SubParam'], colsw[:1]]))
+    if i % 6 == 5:
+      for v in vars_:
+        if rng.random() < 0.6:
+          v['hook'] = True          # a per-instance on_get_value hook and no other metadata
     tl.append({'desc': {'vars': vars_, 'body': body}, 'xs': [[rng.randint(-2, 3) for _ in range(n)] for _ in range(rng.randint(2, 4))], 'mutable': mutable})
   W = 12
   results = common.run_impl_parallel('impl_c18.py', [{'tonnx': tn[i::W], 'tolinen': tl[i::W]} for i in range(W)], workers=W, timeout=3000)
@@ -178,6 +182,8 @@ def run(chk):
         chk.violation('oracle', 'ToLinen.apply differs from the NNX module called with the same state (output), or does not return exactly the mutable collections\' new state',
                       {'case': c, 'x': x, 'tolinen': impl, 'nnx_out': rf['out'], 'expected_updates': want_upd})
         break
+      if any(v.get('hook') for v in c['desc']['vars']):
+        continue        # hooks are outside the body model: oracle only
       # model: one body run on the current values
       newvals = [rf['kept'][COLOF[v['type']]]['/'.join(v['path'])] for v in c['desc']['vars']]
       if abs(impl['out']) > 10 ** 12 or any(abs(z) > 10 ** 12 for v in newvals for z in v):
@@ -189,6 +195,33 @@ def run(chk):
       vals = newvals
     if row:
       rows.append((('tolinen', c, o), '(' + ' && '.join(row) + ')'))
+  # histories on the name <-> type registry itself (names and classes of their own), against Model/Bridge.v
+  rg = []
+  for i in range(400 if thorough else 60):
+    nn_, nt_ = rng.randint(1, 3), rng.randint(1, 3)
+    ops = []
+    for _ in range(rng.randint(2, 8)):
+      r_ = rng.random()
+      if r_ < 0.45:
+        ops.append(['reg', rng.choice(list(range(nn_)) + [100 + rng.randrange(nt_)]), rng.randrange(nt_), rng.random() < 0.5])
+      elif r_ < 0.8:
+        ops.append(['name_of', rng.randrange(nt_), rng.random() < 0.5])
+      else:
+        ops.append(['type_of', rng.choice(list(range(nn_)) + [100 + rng.randrange(nt_)])])
+    rg.append({'nnames': nn_, 'ntypes': nt_, 'ops': ops})
+  rres = common.run_impl('impl_c18.py', {'registry': rg, 'uid': chk.seed % 1000})['registry']
+  for c, o in zip(rg, rres):
+    chk.count({'registry': c}, any(op[0] == 'reg' and op[3] for op in c['ops']))
+    if 'err' in o:
+      chk.violation('oracle', 'a registry history raised %s' % o['err'], {'case': c, 'tb': o.get('tb')})
+      continue
+    hist = []
+    for op, g in zip(c['ops'], o['ok']):
+      cop = ('(ROReg %s %s %s)' % (cN(op[1]), cN(op[2]), cbool(op[3]))) if op[0] == 'reg' else \
+            ('(RONameOf %s %s %s)' % (cN(op[1]), cN(100 + op[1]), cbool(op[2]))) if op[0] == 'name_of' else '(ROTypeOf %s)' % cN(op[1])
+      obs = {'ok': 'OOk', 'err': 'OErr'}.get(g[0]) or ('(OName %s)' % cN(g[1] if g[1] >= 0 else 999) if g[0] == 'name' else '(OType %s)' % cN(g[1] if g[1] >= 0 else 999))
+      hist.append(cpair(cop, obs))
+    rows.append((('registry', c, o), '(reg_run [] %s)' % clist(hist)))
   chk.sample({'tonnx_case': tn[0], 'observed': nres[0].get('ok', {}).get('init')})
   hdr = HEADER + 'Open Scope Z_scope.\nDefinition chk (b : bool) : bool := b.\n'
   bad = common.coq_mismatches('c18', hdr, [r[1] for r in rows], 'chk', shard=30, timeout=900)
